@@ -351,6 +351,13 @@ class Module:
             raise AnalysisError(f"anchor vanished: function {self.name}:{qualname}")
         return fi
 
+    def func_any(self, *qualnames):
+        """the first of several alternative anchors that exists (e.g. __post_init__ of a dataclass / __init__ of a plain class)"""
+        for q in qualnames:
+            if q in self.funcs:
+                return self.funcs[q]
+        return self.func(qualnames[0])
+
     def _relocated(self, qualname):
         """a reference function that changed nesting level (closure hoisted to module level or the reverse) or moved to
         another module under the same name; only functions the reference does not know at their new place qualify"""
